@@ -44,12 +44,6 @@
 #define VSPACE(c) ((c) == ' ' || ((c) >= '\t' && (c) <= '\r'))
 
 
-/* ---- loop invariants of spifconf_parse (bounded unit C09.parse: slots 1..2 of the file stack are spelled
- *      out; see units/C09/parse.c) ------------------------------------------------------------------ */
-#define PARSE_FS_ENTRY(J)  ((J) > fstate_idx || (fstate[(J)].fp != NULL && (fstate[(J)].flags & FILE_PREPROC) == 0))
-#define PARSE_INV \
-    (FSTK_POST && fstate_cnt >= 4 && fstate_idx <= VERIF_MAX_NEST && PARSE_FS_ENTRY(1) && PARSE_FS_ENTRY(2) && \
-     !vg_fg_hdr && vg_fg_budget <= 0xffffffffUL && vg_open_streams == vg_os0 + fstate_idx)
 #endif /* VERIF_CONF_SPEC_H */
 
 #ifndef VERIF_CONF_SPEC_ONLY
@@ -198,6 +192,7 @@ int spiftool_temp_file(spif_charptr_t ftemplate, size_t len)
     __CPROVER_assume(n < len);
     ftemplate[n] = 0;
     vg_tpl_len = n;
+    V_SREG_SET(ftemplate, n);
     vg_umask_calls += 2; vg_mkstemp_calls++; vg_fchmod_calls += nondet_bool() ? 1 : 0;
     int fd = nondet_int();
     __CPROVER_assume(fd >= -1);
@@ -332,14 +327,66 @@ FILE *v_m_open_file(spif_charptr_t name)
     unsigned long b = nondet_ulong();
     __CPROVER_assume(b <= vg_fg_budget);
     vg_fg_budget = b;
-    __CPROVER_assert(!vg_fg_hdr, "open_file contract: no header read pending");
+    __CPROVER_assert(!vg_fg_hdr && !vg_fg_mid, "open_file contract: at a line boundary, no header read pending");
     vg_fg_nl = nondet_bool(); vg_fg_len = nondet_size_t(); vg_fg_buf = nondet_ptr(); vg_fg_ok = nondet_bool(); vg_fg_hdr = 0;
     if (name == NULL || fstate_idx >= VERIF_MAX_NEST || nondet_bool()) {
-        return (FILE *) NULL;           /* vg_fg_mid, vg_deliverable, vg_open_streams unchanged */
+        return (FILE *) NULL;           /* vg_fg_mid (0), vg_deliverable, vg_open_streams unchanged */
     }
     vg_fg_mid = 0;
     vg_open_streams++;
     return (FILE *) malloc(sizeof(FILE));
+}
+#endif
+
+/* =======================================================================================
+ * VERIF_CONF_PARSE_MODELS — models of spifconf_parse_line (FILE-STACK PROJECTION of its contract, see
+ * VERIF_PL_PROJECT_FSTACK below: same clauses) and spifconf_find_file for the bounded caller unit C09.parse.
+ * Bound to the call sites by the --replace-calls pre-pass.
+ * ======================================================================================= */
+#ifdef VERIF_CONF_PARSE_MODELS
+void v_m_parse_line(FILE *fp, spif_charptr_t buff)
+{
+    /* requires (projection) */
+    __CPROVER_assert(fp != NULL, "parse_line contract: fp != NULL (file mode)");
+    __CPROVER_assert(__CPROVER_rw_ok(buff, CONFIG_BUFF) && vg_fg_len < CONFIG_BUFF && buff[vg_fg_len] == 0,
+                     "parse_line contract: buff is a C string in a buffer of CONFIG_BUFF bytes");
+    __CPROVER_assert(fstate_cnt >= 1 && fstate_cnt <= 512 && fstate_idx < fstate_cnt &&
+                     __CPROVER_rw_ok(fstate, sizeof(fstate_t) * (size_t) fstate_cnt), "parse_line contract: FSTK_INV");
+    __CPROVER_assert(fstate_idx >= 1 && fstate[fstate_idx].fp != NULL, "parse_line contract: a current file with a stream");
+    __CPROVER_assert(vg_deliverable == vg_pl_calls + 1 && !vg_fg_mid && !vg_fg_hdr,
+                     "parse_line contract: called for the newest complete line, at a line boundary (each line once, in order)");
+    __CPROVER_assert((unsigned int) fstate_idx + 1 < fstate_cnt, "parse_line contract (bounded caller): a push does not grow the table");
+    /* assigns: buff, spifconf_vars, fstate_idx, the table, ghost groups */
+    __CPROVER_havoc_object(buff);
+    spifconf_vars = nondet_ptr();
+    vg_pl_calls++;
+    unsigned long b = nondet_ulong();
+    __CPROVER_assume(b <= vg_fg_budget);
+    vg_fg_budget = b;
+    /* the current entry keeps stream/path/line/PREPROC bit; the other flag bits (skip-to-end) are the handlers' */
+    unsigned char fl = nondet_uchar();
+    fstate[fstate_idx].flags = (unsigned char) ((fstate[fstate_idx].flags & FILE_PREPROC) | (fl & ~FILE_PREPROC));
+    if (fstate_idx < VERIF_MAX_NEST && nondet_bool()) {
+        /* %include: one more open stream on top */
+        spif_charptr_t path = (spif_charptr_t) malloc(1);
+        fstate_idx++;
+        fstate[fstate_idx].fp = (FILE *) malloc(sizeof(FILE));
+        fstate[fstate_idx].path = path;
+        fstate[fstate_idx].outfile = NULL;
+        fstate[fstate_idx].line = 1;
+        fstate[fstate_idx].flags = 0;
+        vg_open_streams++;
+    }
+}
+/* spifconf_find_file as spifconf_parse uses it (memory safety: C11.find_file): NULL, or a C string in a PATH_MAX
+ * buffer the caller may write to */
+spif_charptr_t v_m_find_file(const spif_charptr_t file, const spif_charptr_t dir, const spif_charptr_t pathlist)
+{
+    __CPROVER_assert(file != NULL && __CPROVER_r_ok(file, 1), "find_file contract: file readable");
+    if (nondet_bool()) return (spif_charptr_t) NULL;
+    spif_charptr_t r = (spif_charptr_t) malloc(PATH_MAX);
+    r[PATH_MAX - 1] = 0;
+    return r;
 }
 #endif
 
@@ -456,7 +503,8 @@ __CPROVER_ensures(!(vg_k < __CPROVER_return_value) || vg_lk_at_k != 0)
 #ifdef VERIF_CT_OPEN_FILE
 FILE *spifconf_open_file(spif_charptr_t name)
 __CPROVER_requires(name == NULL || __CPROVER_r_ok(name, 1))
-__CPROVER_requires(!vg_fg_hdr)
+/* called at a line boundary of the including file, no header read pending */
+__CPROVER_requires(!vg_fg_hdr && !vg_fg_mid)
 __CPROVER_assigns(vg_fg, vg_open_streams)
 __CPROVER_ensures(!vg_fg_hdr)
 __CPROVER_ensures(__CPROVER_return_value == NULL || name != NULL)
@@ -465,7 +513,7 @@ __CPROVER_ensures(__CPROVER_return_value == NULL ? vg_open_streams == __CPROVER_
                      __CPROVER_is_fresh(__CPROVER_return_value, sizeof(FILE))))
 /* the header line is not a config line; the parse loop starts at a line boundary */
 __CPROVER_ensures(vg_deliverable == __CPROVER_old(vg_deliverable) && vg_fg_budget <= __CPROVER_old(vg_fg_budget))
-__CPROVER_ensures(__CPROVER_return_value == NULL ? vg_fg_mid == __CPROVER_old(vg_fg_mid) : !vg_fg_mid)
+__CPROVER_ensures(!vg_fg_mid)
 ;
 #endif /* VERIF_CT_OPEN_FILE */
 
